@@ -80,6 +80,7 @@ def run(pid, tier, seed):
         payload = {"property": pid, "failed_obligations": names[:40],
                    "struct_failures": [{"function": s.ident, "reason": s.msg} for s in res.struct],
                    "solver_output": [{"obligation": o.name, "attempts": o.all_results} for o in bad[:10]],
+                   "solver_counterexample": driver.solver_counterexample(bad),
                    "replay_cmd": "./check %s --replay <this file>" % pid}
         if found:
             payload["case"] = found["case"]
